@@ -19,7 +19,7 @@ def main(tier, seed):
     jobs = []
     for c in range(8 if q else 16):
         jobs.append(Job("framework.props.splitcheck", "run_split",
-                        {"seed": seed * 613 + c, "exhaustive": c == 0, "count": 120 if q else 2500,
+                        {"seed": seed * 613 + c, "exhaustive": c == 0, "count": 120 if q else 15000,
                          "deadline_s": 60 if q else 600},
                         mode="jit" if c % 3 == 1 else "interp", timeout=300 if q else 1500, tag="split:%d" % c,
                         stall_s=90))
